@@ -21,6 +21,7 @@ import (
 	"sync"
 	"sync/atomic"
 	"time"
+	"verif/harness/internal/hn"
 
 	"github.com/hashicorp/eventlogger"
 	"github.com/hashicorp/eventlogger/filters/encrypt"
@@ -38,6 +39,7 @@ type marker struct {
 	closes atomic.Int64
 	slow   time.Duration
 	slowT  time.Duration // Type() takes this long (validation of a definition spends time under the Broker's lock)
+	failC  bool          // Close reports an error
 	ver    int
 	mu     sync.Mutex
 	seen   map[int]int
@@ -65,6 +67,9 @@ func (m *marker) Close(ctx context.Context) error {
 	if m.slow > 0 {
 		time.Sleep(m.slow)
 	}
+	if m.failC {
+		return errors.New("marker: close failed")
+	}
 	return nil
 }
 
@@ -78,6 +83,11 @@ func (l *leaf) Process(ctx context.Context, e *eventlogger.Event) (*eventlogger.
 }
 func (l *leaf) Reopen() error              { return nil }
 func (l *leaf) Type() eventlogger.NodeType { return l.t }
+
+// closerLeaf is a leaf whose Close fails (a sink that cannot flush).
+type closerLeaf struct{ leaf }
+
+func (l *closerLeaf) Close(ctx context.Context) error { return errors.New("closerLeaf: close failed") }
 
 type rec map[string]interface{}
 
@@ -97,7 +107,7 @@ type Problem struct {
 // RunHistory executes one random concurrent history.
 func RunHistory(id int, seed int64) (*History, []Problem) {
 	rng := rand.New(rand.NewSource(seed))
-	b, _ := eventlogger.NewBroker()
+	b, _ := hn.NewBroker()
 	var problems []Problem
 	var pmu sync.Mutex
 	problem := func(prop, f string, a ...interface{}) {
@@ -137,6 +147,7 @@ func RunHistory(id int, seed int64) (*History, []Problem) {
 		m := &marker{ver: ver, seen: map[int]int{}}
 		if id%3 == 0 {
 			m.slow = time.Duration(50+r.Intn(400)) * time.Microsecond
+			m.failC = ver%2 == 0 // ... and half of them fail to close, together with their sink
 		}
 		markers.Store(ver, m)
 		ids := []eventlogger.NodeID{eventlogger.NodeID(fmt.Sprintf("mk%d", ver)), eventlogger.NodeID(fmt.Sprintf("fm%d", ver)), eventlogger.NodeID(fmt.Sprintf("sk%d", ver))}
@@ -148,7 +159,11 @@ func RunHistory(id int, seed int64) (*History, []Problem) {
 		} else {
 			b.RegisterNode(ids[1], &leaf{eventlogger.NodeTypeFormatter})
 		}
-		b.RegisterNode(ids[2], &leaf{eventlogger.NodeTypeSink})
+		if m.failC {
+			b.RegisterNode(ids[2], &closerLeaf{leaf{eventlogger.NodeTypeSink}})
+		} else {
+			b.RegisterNode(ids[2], &leaf{eventlogger.NodeTypeSink})
+		}
 		pid := pids[r.Intn(len(pids))]
 		n := logInv(rec{"kind": "reg", "pid": pid, "ver": ver})
 		err := b.RegisterPipeline(eventlogger.Pipeline{PipelineID: eventlogger.PipelineID(pid), EventType: "t", NodeIDs: ids})
@@ -288,6 +303,8 @@ func RunHistory(id int, seed int64) (*History, []Problem) {
 			res = "notfound"
 		case strings.Contains(err.Error(), "still in use"):
 			res = "inuse"
+		case strings.Contains(err.Error(), "marker: close failed"):
+			// removed; the error is the node's own Close error
 		default:
 			res = "error: " + err.Error()
 		}
@@ -351,7 +368,7 @@ func RunComposition(name string, seed int64, senders, perSender int, f8 bool) Co
 		pmu.Unlock()
 	}
 	rng := rand.New(rand.NewSource(seed))
-	b, _ := eventlogger.NewBroker()
+	b, _ := hn.NewBroker()
 	dir, _ := os.MkdirTemp("", "verif-c19-")
 	defer os.RemoveAll(dir)
 	reg := func(id string, n eventlogger.Node) eventlogger.NodeID {
@@ -639,7 +656,7 @@ func (w *slowLines) Write(p []byte) (int, error) {
 // every event whose Send succeeded is in exactly one composite (Gated.tla: exactly once).
 func GatedBrokerStress(seed int64, d time.Duration) CompResult {
 	res := CompResult{Name: "gated-broker-stress"}
-	b, _ := eventlogger.NewBroker()
+	b, _ := hn.NewBroker()
 	gf := &gated.Filter{Broker: b, Expiration: 2 * time.Millisecond}
 	out := &slowLines{}
 	b.RegisterNode("gf", gf)
@@ -759,7 +776,7 @@ func OverwriteStress(seed int64, d time.Duration) []Problem {
 		}
 		pmu.Unlock()
 	}
-	b, _ := eventlogger.NewBroker()
+	b, _ := hn.NewBroker()
 	b.RegisterNode("fmt", &leaf{eventlogger.NodeTypeFormatter})
 	var installed atomic.Int64 // highest version whose registration has returned
 	var verc int64
@@ -860,7 +877,7 @@ func together(n int, f func(k int)) {
 // refused, and what is registered afterwards is the winner's node / pipeline.
 func DenyStress(seed int64, rounds int) []Problem {
 	var problems []Problem
-	b, _ := eventlogger.NewBroker()
+	b, _ := hn.NewBroker()
 	b.RegisterNode("fmt", &leaf{eventlogger.NodeTypeFormatter})
 	const callers = 8
 	for i := 0; i < rounds && len(problems) < 4; i++ {
@@ -919,7 +936,7 @@ func SharedRemoveStress(seed int64, rounds int) []Problem {
 	var problems []Problem
 	const pipes, shared = 8, 6
 	for i := 0; i < rounds && len(problems) < 4; i++ {
-		b, _ := eventlogger.NewBroker()
+		b, _ := hn.NewBroker()
 		var ids []eventlogger.NodeID
 		for n := 0; n < shared; n++ {
 			id := eventlogger.NodeID(fmt.Sprintf("f%d", n))
@@ -1062,7 +1079,7 @@ func AtomicityStress(seed int64, rounds int) []Problem {
 	for i := 0; i < rounds && len(problems) < 6; i++ {
 		// (1) RegisterPipeline vs RemoveNode of a node it lists
 		{
-			b, _ := eventlogger.NewBroker()
+			b, _ := hn.NewBroker()
 			st := newSlowType()
 			sk := &countSink{}
 			b.RegisterNode("f", &leaf{eventlogger.NodeTypeFilter})
@@ -1089,7 +1106,7 @@ func AtomicityStress(seed int64, rounds int) []Problem {
 		}
 		// (2) RegisterPipeline (default policy) vs RegisterPipeline (DenyOverwrite) of the same id
 		{
-			b, _ := eventlogger.NewBroker()
+			b, _ := hn.NewBroker()
 			st := newSlowType()
 			s1, s2 := &countSink{}, &countSink{}
 			b.RegisterNode("f", &leaf{eventlogger.NodeTypeFilter})
@@ -1126,7 +1143,7 @@ func AtomicityStress(seed int64, rounds int) []Problem {
 		}
 		// (3) several RemovePipelineAndNodes of one pipeline that shares its nodes with a second pipeline
 		{
-			b, _ := eventlogger.NewBroker()
+			b, _ := hn.NewBroker()
 			var ids []eventlogger.NodeID
 			var closers []*marker
 			for n := 0; n < 60; n++ {
@@ -1163,7 +1180,7 @@ func AtomicityStress(seed int64, rounds int) []Problem {
 		}
 		// (4) RemovePipelineAndNodes vs an overwrite of the same pipeline with other nodes
 		{
-			b, _ := eventlogger.NewBroker()
+			b, _ := hn.NewBroker()
 			var xs, ys []eventlogger.NodeID
 			for n := 0; n < 40; n++ {
 				x, y := eventlogger.NodeID(fmt.Sprintf("x%d", n)), eventlogger.NodeID(fmt.Sprintf("y%d", n))
@@ -1199,7 +1216,7 @@ func AtomicityStress(seed int64, rounds int) []Problem {
 		//     (filter -> sink without a formatter): a refused call takes no effect, so the Send delivers to the
 		//     registered pipelines exactly once each and never to the nodes of the refused definition
 		{
-			b, _ := eventlogger.NewBroker()
+			b, _ := hn.NewBroker()
 			g1, g2 := newGateFilter(), newGateFilter()
 			s1, s2, bogus := &countSink{}, &countSink{}, &countSink{}
 			bf, bs := newAskedType(eventlogger.NodeTypeFilter), newAskedType(eventlogger.NodeTypeSink)
@@ -1267,6 +1284,25 @@ func AtomicityStress(seed int64, rounds int) []Problem {
 				problems = append(problems, Problem{"C04", fmt.Sprintf("a Send overlapped an overwrite of %s that was refused (%v): it delivered %d times to p1, %d times to p2 and %d times to the sink of the refused definition; both pipelines were registered before the Send started and never removed, and the refused definition was never registered", other, regErr, n1, n2, nb)})
 			}
 		}
+		// (6) RemovePipelineAndNodes of a pipeline whose three closers all fail: it removes everything, returns true and
+		//     reports every failure (however it goes about closing them)
+		{
+			b, _ := hn.NewBroker()
+			ids := []eventlogger.NodeID{"c1", "c2", "fmt", "c3"}
+			b.RegisterNode("c1", &closerLeaf{leaf{eventlogger.NodeTypeFilter}})
+			b.RegisterNode("c2", &closerLeaf{leaf{eventlogger.NodeTypeFilter}})
+			b.RegisterNode("fmt", &leaf{eventlogger.NodeTypeFormatter})
+			b.RegisterNode("c3", &closerLeaf{leaf{eventlogger.NodeTypeSink}})
+			b.RegisterPipeline(eventlogger.Pipeline{PipelineID: "p", EventType: "t", NodeIDs: ids})
+			ok, err := b.RemovePipelineAndNodes(ctx, "t", "p")
+			n := 0
+			if err != nil {
+				n = strings.Count(err.Error(), "closerLeaf: close failed")
+			}
+			if !ok || n != 3 {
+				problems = append(problems, Problem{"C06", fmt.Sprintf("RemovePipelineAndNodes of a pipeline with three nodes whose Close fails returned %v and reported %d of the 3 failures: %v", ok, n, err)})
+			}
+		}
 	}
 	return problems
 }
@@ -1279,7 +1315,7 @@ func DuringSendStress(seed int64, rounds int) []Problem {
 	ctx := context.Background()
 	for i := 0; i < rounds && len(problems) < 4; i++ {
 		k := 1 + (i*7+int(seed))%24
-		b, _ := eventlogger.NewBroker()
+		b, _ := hn.NewBroker()
 		g1 := newGateFilter()
 		s1 := &countSink{}
 		b.RegisterNode("g1", g1)
@@ -1376,7 +1412,7 @@ func DuringSendStress(seed int64, rounds int) []Problem {
 // the pipeline registered and delivering exactly once, both thresholds read back as set.
 func FirstUseStress(seed int64, rounds int) []Problem {
 	var problems []Problem
-	b, _ := eventlogger.NewBroker()
+	b, _ := hn.NewBroker()
 	b.RegisterNode("fmt", &leaf{eventlogger.NodeTypeFormatter})
 	sink := &countSink{}
 	b.RegisterNode("sink", sink)
